@@ -68,16 +68,19 @@ def jobs_for(tier, rep):
     d1 = gen.sample(l1, n1, C.SEED, keep_short=500)
     d2 = gen.sample([d + "\n\n[r]: /u 't'\n" for d in l2], n2, C.SEED + 1)
     d0 = gen.sample(l0, n0, C.SEED + 2)
+    # Unicode twins (Alphabets!Twins): look-alikes of digits, blanks, line breaks, letters and punctuation
+    dt = gen.twins(gen.sample(l1, n1 // 3, C.SEED + 4, keep_short=300), C.SEED, per_doc=1) \
+        + gen.twins(gen.sample(d2, n2 // 4, C.SEED + 5), C.SEED + 1, per_doc=1)
     cfgkeys = [gen.cfg_key(c) for c in gen.BASE_CONFIGS]
     extra = gen.sample([gen.cfg_key(c) for c in cfgs], 60 if tier == "quick" else 600, C.SEED)
     jobs = []
-    for k, d in enumerate(d1 + d2 + d0):
+    for k, d in enumerate(d1 + d2 + d0 + dt):
         ck = cfgkeys[k % len(cfgkeys)] if k % 3 else extra[(k // 3) % len(extra)]
         jobs.append((ck, "parse", d))
     for k, d in enumerate(gen.sample(d2 + d0, 8000 if tier == "quick" else 80000, C.SEED + 3)):
         jobs.append((cfgkeys[k % len(cfgkeys)], "parseInline", d))
     rep.cov["bounds"] = {"L1_enumerated": len(l1), "L2_enumerated": len(l2), "L0_enumerated": len(l0),
-                         "configs_enumerated": len(cfgs), "executed": len(jobs), "configs_used": len(cfgkeys) + len(extra)}
+                         "configs_enumerated": len(cfgs), "executed": len(jobs), "unicode_twin_docs": len(dt), "configs_used": len(cfgkeys) + len(extra)}
     rep.cov["exhaustive"] = False
     return jobs
 
